@@ -21,10 +21,11 @@ func init() {
 }
 
 var (
-	c05pWhileBlocked = sim.RegStat("probe:c05-post-while-loop-blocked-in-epoll_wait")
-	c05pNested       = sim.RegStat("probe:c05-post-from-posted-handler")
-	c05pWoken        = sim.RegStat("probe:c05-blocking-wait-returned-after-post")
-	c05pConcurrent   = sim.RegStat("probe:c05-post-between-loop-lock-and-unlock")
+	c05pWhileBlocked  = sim.RegStat("probe:c05-post-while-loop-blocked-in-epoll_wait")
+	c05pNested        = sim.RegStat("probe:c05-post-from-posted-handler")
+	c05pWoken         = sim.RegStat("probe:c05-blocking-wait-returned-after-post")
+	c05pInexactWindow = sim.RegStat("probe:c05-pending-read-in-handler-with-a-post-in-progress")
+	c05pConcurrent    = sim.RegStat("probe:c05-post-between-loop-lock-and-unlock")
 )
 
 type c05Stream struct { // one per posting task (index = task id)
@@ -70,6 +71,7 @@ func (d *c05) post(depth int) {
 		if !w.IsMainTask() {
 			c.Failf("handler-on-wrong-goroutine", "handler %d (posted by task %d) ran on task %s, not on the goroutine that runs the loop", id, tid, w.CurTask().Name())
 		}
+		d.pendingInHandler(id)
 		d.runs[id]++
 		if d.runs[id] > 1 {
 			c.Failf("handler-ran-twice", "handler %d (task %d, seq %d) executed %d times", id, tid, seq, d.runs[id])
@@ -87,6 +89,36 @@ func (d *c05) post(depth int) {
 	st.returned++
 	if err != nil {
 		c.Failf("post-error", "Post returned %v", err)
+	}
+}
+
+// pendingInHandler: Pending() read on the loop goroutine from inside a posted
+// handler. No other handler is running and the loop-side I/O of this scenario
+// is only ever armed or disarmed between polls, so the exact value is known up
+// to the Post calls other tasks are in the middle of (started, not returned)
+// and to whether the handler that is running counts as "not yet run".
+func (d *c05) pendingInHandler(id int) {
+	committed, returned, ran := 0, 0, 0
+	for i := 0; i < d.nTasks; i++ {
+		committed += d.streams[i].committed
+		returned += d.streams[i].returned
+		ran += d.streams[i].ran
+	}
+	io := 0
+	if d.rdArm {
+		io++
+	}
+	if d.tArmed {
+		io++
+	}
+	// ran counts the handlers that finished before this one
+	lo, hi := returned-ran-1+io, committed-ran+io
+	got := int(d.ioc.Pending())
+	if got < lo || got > hi {
+		d.c.Failf("pending-inexact-inside-handler", "Pending()=%d inside posted handler %d: %d Post calls started, %d returned, %d handlers finished, %d loop operations armed, so between %d and %d", got, id, committed, returned, ran, io, lo, hi)
+	}
+	if committed != returned {
+		d.w.Stat(c05pInexactWindow)
 	}
 }
 
